@@ -118,3 +118,54 @@ func VerifC08c_Retry2()    { verifRetries = 2; verifC08c(RetryMode, false) }
 func VerifC08c_Skip()      { verifC08c(SkipMode, false) }
 func VerifC08c_Exit()      { verifC08c(ExitMode, false) }
 func VerifC08c_NoHandler() { verifC08c(SkipMode, true) }
+
+// C08.b: a successful answer stores exactly the declared result fields and data outputs.  ApplyTaskResult and
+// ApplyTaskDataOutput with declared names (a solver-chosen subset of a pool) and supplied names (another subset):
+// the stored keys are exactly declared AND supplied, each with the supplied value; nothing is stored without a declaration.
+var verifNames = []string{"a", "b", "c"}
+
+func VerifC08b_DeclaredOnly() {
+	var declared, supplied [3]bool
+	task := schema.DefaultTask()
+	ext := schema.DefaultExtensionElements()
+	hasResults := verifNondetBool("hasResultsExtension")
+	res := &schema.Result{}
+	results := map[string]any{}
+	outputs := map[string]any{}
+	var vals [3]int64
+	for i := 0; i < 3; i++ {
+		declared[i] = verifNondetBool("declared")
+		supplied[i] = verifNondetBool("supplied")
+		vals[i] = verifNondetInt64("v")
+		if declared[i] {
+			res.Field = append(res.Field, &schema.Item{Name: verifNames[i], Type: schema.ItemTypeInteger})
+			ext.DataOutput = append(ext.DataOutput, schema.ExtensionAssociation{Name: verifNames[i]})
+		}
+		if supplied[i] {
+			results[verifNames[i]] = vals[i]
+			outputs[verifNames[i]] = vals[i]
+		}
+	}
+	if hasResults {
+		ext.ResultsField = res
+	}
+	task.SetExtensionElements(&ext)
+	verifReach("built")
+	got := ApplyTaskResult(&task, results)
+	gotOut := ApplyTaskDataOutput(&task, outputs)
+	for i := 0; i < 3; i++ {
+		item, ok := got[verifNames[i]]
+		verifAssert(ok == (hasResults && declared[i] && supplied[i]), "exactly the declared and supplied result fields are stored")
+		if ok {
+			v, isInt := item.Value().(int64)
+			verifAssert(isInt && v == vals[i], "a stored result field carries the supplied value")
+		}
+		out, ok2 := gotOut[verifNames[i]]
+		verifAssert(ok2 == (declared[i] && supplied[i]), "exactly the declared and supplied data outputs are stored")
+		if ok2 {
+			v, isInt := out.Value().(int64)
+			verifAssert(isInt && v == vals[i], "a stored data output carries the supplied value")
+		}
+	}
+	verifAssert(len(got) <= 3 && len(gotOut) <= 3, "nothing but the declared names is stored")
+}
